@@ -1,11 +1,11 @@
 SPECIFICATION Spec
-CONSTANTS Tunings = {"default", "a1"} MaxGroup = 1 PermSet = "all"
-CONSTANT KindSets <- KindSetsQuick
-CONSTANT Placements <- PlacementsQuick
+CONSTANTS Tunings = {"a1"} MaxGroup = 1 PermSet = "some"
+CONSTANT KindSets <- KindSetsSeq
+CONSTANT Placements <- PlacementsSeq
 CONSTANT SubPatterns <- SubsQuick
-CONSTANT TurnVals <- TurnsQuick
-CONSTANT RangePatterns <- RangeNear
-CONSTANTS MaxHist = 0 ContinueFrom = "any"
+CONSTANT TurnVals <- TurnsOne
+CONSTANT RangePatterns <- RangeMixed
+CONSTANTS MaxHist = 1 ContinueFrom = "base"
 INVARIANT PosteriorIsBasePosterior
 INVARIANT InnovationInRange
 INVARIANT InnovationIsAngleResidual
